@@ -33,8 +33,7 @@ s=re.sub(r"\d+ property-breaking changes are stored: \d+ written, in \w+ rounds 
 para = ("**Sixth round (%d changes, for the properties that had the fewest stored changes; prompt: \"avoid the\n"
 "obvious mutation, pick an error path, a boundary case, a rarely used option, a second call site\"):\n"
 "%d caught at once by the quick tier, %d missed.** Nothing had to be strengthened. What reported them:\n%s.\n"
-"Changes delivered by the sub-agents whose re-verification had not finished when the session's time\n"
-"ran out are not stored. (While nine sub-agents and up to nineteen re-verifications ran at once the\n"
+"All 18 delivered changes were re-verified and stored. (While nine sub-agents and up to nineteen re-verifications ran at once the\n"
 "load average was above 150; one re-verification of the root package's tests (C21) failed in a\n"
 "timing-dependent test and passed when repeated — noted in that change's meta.json.)\n\n") % (
  len(n6), caught, len(n6)-caught, ";\n".join(NOTE.get(p,p) for p,_ in n6))
